@@ -1,2 +1,43 @@
-(* C02 -- placeholder until the theorems are stated; see DESIGN.md *)
-From NV Require Import Model.Matcher Spec.Matching.
+(* C02 -- Reported match indices are a valid witness of the match.
+   Statements in Spec/Statements.v, proofs in Proofs/WitnessFacts.v.  "Appends exactly ... leaving earlier
+   content untouched" is by construction of the wrapper below: the model functions return the appended
+   indices, the caller's vector is prior ++ appended (the Rust code only ever pushes / resizes past the
+   old length; the harness calls the indices variants with a non-empty prior vector and checks it).
+   PARTIAL: the theorems cover the five algorithms that score through calculate_score and the
+   greedy fallback, i.e. everything except the DP's reconstruct_optimal_path, whose witness property is
+   validated by the correspondence + embedding oracle (and exhaustively on small strings in the
+   thorough tier) but not yet proved. *)
+From Coq Require Import Arith NArith List Bool.
+From NV Require Import Model.Matcher Spec.Matching Spec.Statements Proofs.WitnessFacts.
+Import ListNotations.
+Local Open Scope N_scope.
+
+(* the caller-visible effect of an indices variant on the caller's vector *)
+Definition indices_after (prior : list N) (o : outcome) : list N :=
+  match o with Match _ idx => prior ++ idx | _ => prior end.
+
+Theorem C02_linear_witness : C02_linear_witness_stmt.
+Proof. exact WitnessFacts.C02_linear_witness. Qed.
+
+Theorem C02_shape : C02_shape_stmt.
+Proof. exact WitnessFacts.C02_shape. Qed.
+
+(* a failed match appends nothing; a successful one keeps the prior content as a prefix *)
+Theorem C02_prior_untouched : forall prior o,
+  (forall s idx, o <> Match s idx) -> indices_after prior o = prior.
+Proof. intros prior o H. destruct o; try reflexivity. exfalso. exact (H _ _ eq_refl). Qed.
+Theorem C02_prior_prefix : forall prior s idx, firstn (length prior) (indices_after prior (Match s idx)) = prior.
+Proof. intros. cbn [indices_after]. rewrite firstn_app, Nat.sub_diag, firstn_all. cbn. apply app_nil_r. Qed.
+
+Example C02_nonvacuous :
+  let cfg := config_of preset_default true true false in
+  let hs := {| rp := Unicode; cs := [102; 246; 246; 47; 66; 228; 114] |} in
+  let ns := {| rp := Ascii; cs := [102; 98; 114] |} in
+  needle_ok cfg (rp ns) (cs ns) = true /\
+  match run cfg FuzzyGreedy hs ns with Match _ idx => idx = [0; 4; 6] | _ => False end.
+Proof. vm_compute. split; reflexivity. Qed.
+
+Print Assumptions C02_linear_witness.
+Print Assumptions C02_shape.
+Print Assumptions C02_prior_untouched.
+Print Assumptions C02_prior_prefix.
